@@ -63,7 +63,8 @@ def events():
         ev += [('idx', i), ('neg', i), ('key', i), ('copy-idx', i)]
     for j in range(N - 1):
         ev.append(('slice', j))
-    ev += [('iter',), ('next',), ('copy-iter',), ('items',), ('mem-low',), ('mem-ok',), ('freeze-iter',)]
+    ev += [('iter',), ('next',), ('copy-iter',), ('items',), ('mem-low',), ('mem-ok',), ('freeze-iter',),
+           ('oob', N), ('oob', -N - 1)]
     return ev
 
 
@@ -115,6 +116,8 @@ class Model:
         if k == 'mem-ok':
             self.low = False
             return []
+        if k == 'oob':
+            return ['IndexError']
         raise ValueError(ev)
 
 
@@ -167,6 +170,11 @@ class Real:
         if k == 'mem-ok':
             self.mem.low = False
             return []
+        if k == 'oob':
+            try:
+                return [ds[ev[1]]]
+            except IndexError:
+                return ['IndexError']
         raise ValueError(ev)
 
 
@@ -240,7 +248,7 @@ def closure(keep):
 
 
 TREE_EVENTS = [('idx', 0), ('idx', 2), ('neg', 2), ('key', 1), ('next',), ('iter',), ('slice', 1), ('copy-idx', 1),
-               ('mem-low',), ('copy-iter',)]
+               ('mem-low',), ('copy-iter',), ('oob', -N - 1)]
 
 
 def tree(depth, keep):
@@ -308,6 +316,13 @@ def prefetch_same_example(res, tier):
     jobs = [(c, 'D', None) for c in cfgs]
     before = len(res.violations)
     _e2.run_matrix('C10', 'oracle_once', jobs, res, 'E2: cache().tile(2).prefetch(2, b), all schedules')
+    # a cold cache filled by two workers and read back in a second epoch: every source line a scheduling point
+    fill = [dict(entry='prefetch', n=n, w=2, b=2, backend='t', pre=['cache'], consumers=[['exhaust'], ['exhaust']])
+            for n in ((2, 3) if tier == 'quick' else (2, 3, 4))]
+    bound = 1 if tier == 'quick' else 2
+    _e2.run_matrix('C10', 'oracle_values', [(c, 'D', None) for c in fill] + [(c, 'L', bound) for c in fill if tier == 'thorough' or c['n'] == 2], res,
+                   f'E2: cache().prefetch(2, 2) filled cold by two workers, then read back; mode D and mode L bound {bound}',
+                   cap=100000)
     return len(res.violations) - before
 
 
